@@ -128,7 +128,11 @@ def services_ir(pkg="com.palantir.svc", set_double_query=True):
     bodies = [("Obj", R("Obj")), ("OptObj", ir.optional(R("Obj"))), ("List", ir.list_(R("Obj"))), ("Set", ir.set_(P("DOUBLE"))), ("Map", ir.map_(R("En"), R("Obj"))),
               ("Any", P("ANY")), ("Str", P("STRING")), ("Bin", P("BINARY")), ("BinAlias", R("BinAlias")), ("OptAlias", R("OptAlias")), ("Un", R("Un")),
               ("ObjAlias", R("ObjAlias")), ("OptObjAlias", R("OptObjAlias")), ("ListAlias", R("ListAlias")), ("SetAlias", R("SetAlias")), ("Dbl", P("DOUBLE")),
-              ("OptBin", ir.optional(P("BINARY")))]
+              ("OptBin", ir.optional(P("BINARY"))),
+              # collections / optionals holding a bare double or any (no Eq / Ord / Hash on the element type)
+              ("ListDbl", ir.list_(P("DOUBLE"))), ("OptDbl", ir.optional(P("DOUBLE"))), ("MapStrDbl", ir.map_(P("STRING"), P("DOUBLE"))),
+              ("ListAny", ir.list_(P("ANY"))), ("OptAny", ir.optional(P("ANY"))), ("MapDblAny", ir.map_(P("DOUBLE"), P("ANY"))),
+              ("OptListDbl", ir.optional(ir.list_(P("DOUBLE")))), ("DblAlias", R("DblAlias")), ("OptDblAlias", ir.optional(R("DblAlias")))]
     for n, t in bodies:
         if n != "OptBin":
             eps.append(ir.endpoint("body" + n, "POST", "/b%s" % n.lower(), [ir.arg("body", t, "body")], returns=None if n in ("Obj",) else t))
